@@ -533,6 +533,36 @@ class Interp:
                 return True
             if a in ("ndim", "shape") and v.k in ("list", "tuple"):
                 return False
+        if isinstance(test, ast.Call) and not getattr(self, "_in_pred", False):
+            # a yes/no helper of the package whose answer is a conjunction: it says no as soon as one conjunct that can be
+            # decided from the abstract values (rank, kind of array) is false for these arguments
+            try:
+                tg_ = [t_[1] for t_ in self.P.resolve_callee(test.func, self.f) if t_[0] == "repo"]
+            except Exception:
+                tg_ = []
+            for callee in tg_[:1]:
+                rets_ = [r for r in walk_no_nested(callee.node) if isinstance(r, ast.Return) and r.value is not None]
+                body_ok = all(isinstance(b_, (ast.Return, ast.Expr)) for b_ in callee.node.body)
+                if len(rets_) == 1 and body_ok:
+                    rv = rets_[0].value
+                    conj_ = rv.values if isinstance(rv, ast.BoolOp) and isinstance(rv.op, ast.And) else [rv]
+                    try:
+                        b_ = self.P.bind_args(callee, test.args, test.keywords)
+                        cenv = {p_: self.ev(a_, env) for p_, a_ in b_.items() if a_ is not None}
+                    except Exception:
+                        cenv = None
+                    if cenv is not None:
+                        self._in_pred = True
+                        try:
+                            for c_ in conj_:
+                                if all(isinstance(x_, ast.Name) and x_.id in cenv or not isinstance(x_, ast.Name) or x_.id in ("np", "numpy", "da") for x_ in ast.walk(c_)):
+                                    try:
+                                        if self.static_test(c_, cenv) is False:
+                                            return False
+                                    except Exception:
+                                        pass
+                        finally:
+                            self._in_pred = False
         if isinstance(test, ast.Compare) and len(test.ops) == 1 and isinstance(test.left, ast.Attribute) and test.left.attr == "ndim":
             v = self.ev(test.left.value, env)
             k = const_value(test.comparators[0])
